@@ -1109,14 +1109,14 @@ def iter_next(ex, st, it):
     is_map = src.kind == 'map'
     if it.attrs['mode'] == 'ref':
         if is_map:
-            sel = it.attrs.get('sel')
+            sel = it.attrs.get('sel') or ('keys' if 'Set' in type_head(src.ty) else None)
             if sel == 'keys': return Ref(('mapkv', src, idx, 0))
             if sel == 'values': return Ref(('mapkv', src, idx, 1))
             return (Ref(('mapkv', src, idx, 0)), Ref(('mapkv', src, idx, 1)))
         return Ref(('elem', src, idx))
     x = items[idx]
     if is_map:
-        sel = it.attrs.get('sel')
+        sel = it.attrs.get('sel') or ('keys' if 'Set' in type_head(src.ty) else None)
         if sel == 'keys': return x[0]
         if sel == 'values': return x[1]
     return x
@@ -1596,3 +1596,20 @@ def m_bool_then_some(ctx):
     if z3.is_bv(c):
         c = c != 0
     return [(c, (lambda s2: some(s2.tr(v)))), (z3.Not(c), none())]
+
+
+@model(r'^<(std::vec::|alloc::vec::)?Vec<.*> as Extend<.*>>::extend(::<.*>)?$')
+def m_vec_extend(ctx):
+    ex, st = ctx.ex, ctx.st
+    v = shaped(ex, st, ctx.args[0], 'vec')
+    src = ex.deref_val(st, ctx.args[1])
+    if isinstance(src, Obj) and src.kind == 'iter':
+        if src.attrs.get('fn') or src.attrs.get('mode') not in ('val', None):
+            raise MirError('Vec::extend from a lazy iterator')
+        items = src.attrs['src'].attrs['items'][src.attrs.get('pos', 0):]
+    elif isinstance(src, Obj) and 'items' in src.attrs and src.kind == 'vec':
+        items = src.attrs['items']
+    else:
+        raise MirError(f'Vec::extend from unshaped source {src!r}')
+    v.attrs['items'].extend(items)
+    return [(None, ())]
